@@ -8,6 +8,7 @@ import (
 	"go/token"
 	"go/types"
 	"math/bits"
+	"rscheck/rules/reent"
 	"strings"
 
 	"golang.org/x/tools/go/packages"
@@ -75,7 +76,23 @@ func (e *env) isDigest(f *types.Func) bool {
 	return false
 }
 
+func reentrant(c *core.Ctx) {
+	var roots []*core.Fn
+	for _, n := range []string{"NextBinEntry", "Header", "Footer"} {
+		if f := c.FuncOpt("pkg/rdb", "Loader", n); f != nil {
+			roots = append(roots, f)
+		}
+	}
+	for _, n := range []string{"NewLoader", "createValueDump", "DecodeDump", "EncodeDump"} {
+		if f := c.FuncOpt("pkg/rdb", "", n); f != nil {
+			roots = append(roots, f)
+		}
+	}
+	reent.Check(c, "R10.reentrant", roots, []string{"pkg/rdb", "pkg/rdb/digest", "pkg/libs/cupcake/rdb", "pkg/libs/cupcake/rdb/crc64"}, "one loader per source node / parallel workers")
+}
+
 func Run(c *core.Ctx) {
+	defer reentrant(c)
 	ref := jonesTable()
 	e := &env{c: c}
 	for _, p := range [][2]string{{pkgDigest, "digest"}, {pkgCupIn, "cupcake-local"}, {pkgCupMod, "cupcake"}} {
